@@ -44,12 +44,32 @@ def classify(c):
         cl.add("local-only-hop")
     if int(np.prod(np_)) == 1:
         cl.add("serial")
+    if len([x for x in np_ if x > 1]) >= 3 or (len(np_) >= 3 and np_[2] > 1):
+        cl.add("three-axis-grid")
+    if any(P[i] > c["sh"][o[i] - 1] for o in c["lays"] for i in range(c["nd"])):
+        cl.add("over-decomposed")
     return cl or {"plain"}
 
 
 def names(c):
     lays = sorted(tuple(o) for o in c["lays"])
     return {"L" + "".join(str(d - 1) for d in o): [d - 1 for d in o] for o in lays}
+
+
+def _bufsize_job(comm, shape, nprocs, layouts):
+    h, _ = sl.handler_job(comm, shape, nprocs, layouts)
+    return int(h.bufferSize)
+
+
+def has_idle_rank(c):
+    """Over-decomposed grids (more processes than points along a direction) are legal as long as every rank still owns
+    something in some layout; a rank with buffer size 0 takes itself for the plot-only rank and skips every collective
+    (TransposeMC.NoIdle; DESIGN 13.5).  Such configurations are not replayed."""
+    from mpi4py import MPI
+    if "over-decomposed" not in classify(c):
+        return False
+    res = MPI.run(int(np.prod(c["np"])), _bufsize_job, args=(c["sh"], c["np"], names(c)))
+    return (not res.ok) or min(res.values) == 0
 
 
 def run_config(ctx, c, rng, dtype, usebuf, events, meta, order_seed=None):
@@ -224,6 +244,9 @@ def run(ctx):
         boxes += [("2-D ext<=5", box_cfg(2, 5, 4, 2)), ("3-D ext<=3, <=3 layouts", box_cfg(3, 3, 3, 3)),
                   ("4-D ext<=2, <=3 layouts", box_cfg(4, 2, 2, 3)),
                   ("sampled 3-D/4-D ext<=7, <=5 layouts", box_cfg(3, 1, 4, 2, k=3000, nds=(3, 4), sext=7, slay=5))]
+    OVER = "CONSTANT MaxNpLen <- MaxNpLenFull\nCONSTANT GridFits <- AnyFits\n"
+    boxes += [("sampled 3-D/4-D, process grids of every length, over-decomposed grids admitted",
+               box_cfg(3, 1, 3, 2, k=300 if quick else 3000, nds=(3, 4), sext=4, slay=3) + OVER)]
     rows = []
     for what, cfg in boxes:
         r = ctx.tlc("LayoutBoxMC", cfg, what=what, seed=ctx.seed + 1, timeout=7200)
@@ -237,6 +260,8 @@ def run(ctx):
     tboxes = [("3-D ext<=3, P<=3, 2 layouts", tcfg % (3, 3, 3, 2, 0, "3", 3, 3)), ("sampled 3-D/4-D ext<=4, <=4 layouts", tcfg % (3, 1, 3, 2, 60 if quick else 600, "3,4", 4, 4))]
     if not quick:
         tboxes += [("3-D ext<=3, P<=3, 3 layouts", tcfg % (3, 3, 3, 3, 0, "3", 3, 3)), ("4-D ext<=2, P<=2, 2 layouts", tcfg % (4, 2, 2, 2, 0, "4", 2, 2))]
+    tboxes += [("sampled 3-D/4-D, process grids of every length, over-decomposed (no idle rank)",
+                tcfg % (3, 1, 3, 2, 80 if quick else 1500, "3,4", 4, 3) + "CONSTANT MaxNpLen <- MaxNpLenFull\nCONSTANT GridFits <- AnyFits\nCONSTRAINT NoIdle\n")]
     for what, cfg in tboxes:
         r = ctx.tlc("TransposeMC", cfg, what="Transpose refines LayoutAbs: " + what, seed=ctx.seed + 5, timeout=7200, big=not quick)
         ctx.log("TransposeMC %s: %d states in %.1fs %s" % (what, r.distinct, r.wall, r.violated or "ok"))
@@ -246,6 +271,7 @@ def run(ctx):
     ctx.exhaustive = True
     # choose what to replay
     chosen = []
+    idle_skipped = [0]
     classes_seen = {}
     for what, rs in rows:
         rs = list(rs)
@@ -256,6 +282,9 @@ def run(ctx):
         per_class = {}
         for c in rs:
             cl = classify(c)
+            if "over-decomposed" in cl and has_idle_rank(c):
+                idle_skipped[0] += 1
+                continue
             if cap is not None:
                 # stratified: keep while some class of this configuration is still under-represented
                 if all(per_class.get(x, 0) >= cap // 5 for x in cl) and len([1 for x in chosen if x[0] == what]) >= cap:
@@ -265,8 +294,10 @@ def run(ctx):
                 classes_seen[x] = classes_seen.get(x, 0) + 1
             chosen.append((what, c))
     ctx.extra["configurations_replayed"] = len(chosen)
+    ctx.extra["over_decomposed_configurations_with_an_idle_rank_not_replayed"] = idle_skipped[0]
     ctx.extra["classes"] = classes_seen
-    for need in ("leading-extent-1", "equal-extents", "uneven-blocks", "multi-hop-route", "local-only-hop", "extent-equals-process-count"):
+    for need in ("leading-extent-1", "equal-extents", "uneven-blocks", "multi-hop-route", "local-only-hop", "extent-equals-process-count",
+                 "three-axis-grid", "over-decomposed"):
         if classes_seen.get(need, 0) == 0:
             raise Machinery("vacuity: no replayed configuration of class " + need)
     events, meta = [], []
@@ -288,12 +319,14 @@ def run(ctx):
         k = rng.randint(2, 5)
         perms = sl.all_perms(nd)
         lays = [[d + 1 for d in o] for o in rng.sample(perms, min(k, len(perms)))]
-        nl = 1 if nd == 2 else rng.choice([1, 2])
-        npr = [rng.randint(1, 4) for _ in range(nl)]
+        nl = 1 if nd == 2 else rng.choice([1, 2] + ([3] if nd == 4 else []))
+        npr = [rng.randint(1, 4 if nl < 3 else 3) for _ in range(nl)]
         c = {"nd": nd, "sh": sh, "np": npr, "lays": lays}
         P = npr + [1] * (nd - nl)
-        if int(np.prod(npr)) > 12 or any(P[i] > sh[o[i] - 1] for o in lays for i in range(nd)):
+        if int(np.prod(npr)) > 12:
             continue
+        if any(P[i] > sh[o[i] - 1] for o in lays for i in range(nd)) and (tries % 4 or has_idle_rank(c)):
+            continue            # over-decomposed grids: one candidate in four, and only without idle ranks
         from harness.checks.c02 import connected
         if not connected({str(i): [d - 1 for d in o] for i, o in enumerate(lays)}, npr):
             continue
